@@ -234,7 +234,11 @@ func (*reader).Advance
   ensures [sameLine] n < old(r.pos.Padding + r.pos.Stop - r.pos.Start) ==> (r.line == old(r.line) && r.head == old(r.head) && r.pos.Stop == old(r.pos.Stop))
   ensures [lastLine] (n == old(r.pos.Padding + r.pos.Stop - r.pos.Start) && old(r.pos.Start < r.pos.Stop && r.source[r.pos.Stop-1] != '\n')) ==> r.line == old(r.line)
   ensures r.peekedLine == nil && r.lineOffset == -1
+  ensures [start] n < old(r.pos.Padding + r.pos.Stop - r.pos.Start) ==> (old(r.pos.Start) <= r.pos.Start && r.pos.Start <= old(r.pos.Start) + n)
+  ensures [startPlain] r.pos.Start <= old(r.pos.Start) + n
   modifies r.lineOffset, r.peekedLine, r.pos, r.head, r.line
+  loop 0 inv [startPlain] r.pos.Start <= old(r.pos.Start) + (old(n) - n)
+  loop 0 inv [start] (old(n) - n) < old(r.pos.Padding + r.pos.Stop - r.pos.Start) ==> (old(r.pos.Start) <= r.pos.Start && r.pos.Start <= old(r.pos.Start) + (old(n) - n))
   loop 0 inv [lastLine] ((old(n) - n) <= old(r.pos.Padding + r.pos.Stop - r.pos.Start) && old(r.pos.Start < r.pos.Stop && r.source[r.pos.Stop-1] != '\n')) ==> (r.line == old(r.line) && r.pos.Stop == old(r.pos.Stop) &&
      r.pos.Padding + r.pos.Stop - r.pos.Start == old(r.pos.Padding + r.pos.Stop - r.pos.Start) - (old(n) - n))
   loop 0 inv readerInv(r) && r.peekedLine == nil && r.lineOffset == -1 && 0 <= n && l == r.sourceLength
@@ -269,6 +273,8 @@ func (*reader).AdvanceAndSetPadding
   refines text.Reader.AdvanceAndSetPadding via rdR
   requires readerInv(r) && 0 <= n && n <= remaining(r) && padding >= 0
   ensures readerInv(r)
+  ensures [start] n < old(r.pos.Padding + r.pos.Stop - r.pos.Start) ==> (old(r.pos.Start) <= r.pos.Start && r.pos.Start <= old(r.pos.Start) + n)
+  ensures [startPlain] r.pos.Start <= old(r.pos.Start) + n
   modifies r.lineOffset, r.peekedLine, r.pos, r.head, r.line
 
 // validPos(r, line, pos): (line, pos) is a position Position() can have returned for this source
@@ -394,6 +400,7 @@ func (*blockReader).Advance
   ensures [moved] remB(r) == old(remB(r)) - n
   ensures [sameLine] (n < old(r.pos.Padding + r.pos.Stop - r.pos.Start) && old(r.line < r.segmentsLength && r.pos.Start < r.pos.Stop)) ==> (r.line == old(r.line) && r.pos.Stop == old(r.pos.Stop) &&
      r.pos.Padding + r.pos.Stop - r.pos.Start == old(r.pos.Padding + r.pos.Stop - r.pos.Start) - n && r.pos.Start < r.pos.Stop)
+  ensures [start] (n < old(r.pos.Padding + r.pos.Stop - r.pos.Start) && old(r.line < r.segmentsLength && r.pos.Start < r.pos.Stop)) ==> (old(r.pos.Start) <= r.pos.Start && r.pos.Start <= old(r.pos.Start) + n)
   modifies r.lineOffset, r.line, r.head, r.pos
   loop 0 inv brInv(r) && r.lineOffset == -1 && 0 <= n && n <= remB(r)
   loop 0 inv [moved] remB(r) - n == old(remB(r)) - old(n)
@@ -407,6 +414,7 @@ func (*blockReader).AdvanceAndSetPadding
   uses lremDef
   requires brInv(r) && 0 <= n && n <= remB(r) && padding >= 0
   ensures brInv(r)
+  ensures [start] (n < old(r.pos.Padding + r.pos.Stop - r.pos.Start) && old(r.line < r.segmentsLength && r.pos.Start < r.pos.Stop)) ==> (old(r.pos.Start) <= r.pos.Start && r.pos.Start <= old(r.pos.Start) + n)
   modifies r.lineOffset, r.line, r.head, r.pos
 
 // ======== the cursor model of a text.Reader at interface level (C08 line discipline, C05, C01) ========
@@ -457,6 +465,9 @@ iface text.Reader.Advance
   ensures rdOK(recv)
   ensures [moved] rdRem(recv) == old(rdRem(recv)) - arg0
   ensures [sameLine] (old(rdLive(recv)) && arg0 < old(rdLen(recv))) ==> (rdLive(recv) && rdLine(recv) == old(rdLine(recv)) && rdStop(recv) == old(rdStop(recv)) && rdLen(recv) == old(rdLen(recv)) - arg0)
+  ensures [start] (old(rdLive(recv)) && arg0 < old(rdLen(recv))) ==> (old(rdStart(recv)) <= rdStart(recv) && rdStart(recv) <= old(rdStart(recv)) + arg0)
+  // over the whole source (no container prefixes to jump over) even a move to the end of the line advances the start by at most n bytes
+  ensures [startPlain] (plainReader(recv) && old(rdLive(recv)) && arg0 <= old(rdLen(recv)) && rdLive(recv)) ==> rdStart(recv) <= old(rdStart(recv)) + arg0
   // consuming a whole line that does not end in a newline (the last line of the source) stays on that line
   ensures [lastLine] (plainReader(recv) && old(rdLive(recv)) && arg0 == old(rdLen(recv)) && old(srcByte(recv, rdStop(recv) - 1)) != '\n') ==> rdLine(recv) == old(rdLine(recv))
   modifies rdRep, rdLive, rdLine, rdStart, rdStop, rdPad, rdRem
@@ -470,6 +481,9 @@ iface text.Reader.AdvanceAndSetPadding
   requires rdOK(recv) && 0 <= arg0 && arg0 <= rdRem(recv) && arg1 >= 0
   ensures rdOK(recv)
   ensures [sameLine] (old(rdLive(recv)) && arg0 < old(rdLen(recv))) ==> (rdLive(recv) && rdLine(recv) == old(rdLine(recv)) && rdStop(recv) == old(rdStop(recv)))
+  ensures [start] (old(rdLive(recv)) && arg0 < old(rdLen(recv))) ==> (old(rdStart(recv)) <= rdStart(recv) && rdStart(recv) <= old(rdStart(recv)) + arg0)
+  // over the whole source (no container prefixes to jump over) even a move to the end of the line advances the start by at most n bytes
+  ensures [startPlain] (plainReader(recv) && old(rdLive(recv)) && arg0 <= old(rdLen(recv)) && rdLive(recv)) ==> rdStart(recv) <= old(rdStart(recv)) + arg0
   ensures [lastLine] (plainReader(recv) && old(rdLive(recv)) && arg0 == old(rdLen(recv)) && old(srcByte(recv, rdStop(recv) - 1)) != '\n') ==> rdLine(recv) == old(rdLine(recv))
   modifies rdRep, rdLive, rdLine, rdStart, rdStop, rdPad, rdRem
 
